@@ -763,7 +763,11 @@ func (x *sess) burst(rng *hx.Rng, vg *serixgen.VGen, gen *universe) {
 	}
 }
 
-var corpus = [][]string{}
+var corpus = [][]string{
+	// Decode into the variable an earlier Decode filled (fixed in /repo 7390347: the slice was appended to, the map merged)
+	{"type live 3395948882924712079", "type sel 36", "def -", "dec v 0300663d0a042e64cf2a65665c3a00", "dec w 0000", "dec w 01006401", "dec w 0000",
+		"type sel 2", "def -", "dec v 020040a97fff7f", "dec w 0100bde7", "dec w 020040a97fff7f", "dec w 00"},
+}
 
 var rec *refo.Rec
 
